@@ -71,7 +71,13 @@ def build(kind, dest):
         cmd = [GO_V, "test", "-c", "-tags", "verif"] + mf + race + ["-o", dest, "./vt"]
     else:
         cmd = [GO_R, "build", "-tags", "verif"] + mf + race + ["-o", dest, "./rt"]
-    p = subprocess.run(cmd, cwd=HARNESS, env=ENV, stdout=subprocess.PIPE, stderr=subprocess.STDOUT, text=True)
+    for attempt in range(3):
+        p = subprocess.run(cmd, cwd=HARNESS, env=ENV, stdout=subprocess.PIPE, stderr=subprocess.STDOUT, text=True)
+        if p.returncode == 0:
+            break
+        # a build can fail transiently on a heavily loaded machine (linker killed, cache contention)
+        log("BUILD-RETRY kind=%s attempt=%d\n%s" % (kind, attempt + 1, p.stdout[-1500:]))
+        time.sleep(2 + 3 * attempt)
     if p.returncode != 0:
         log("BUILD-FAILED kind=%s\n%s" % (kind, p.stdout[-4000:]))
         sys.exit(2)
